@@ -1,5 +1,6 @@
 import SJ.Model.FromValue
 import SJ.Spec.SchemaAp
+import SJ.Model.NumberAp
 /-!
 # `Value` targets under `arbitrary_precision`: the literals `Number::deserialize_any` does not hand back verbatim
 
@@ -21,5 +22,29 @@ def litFixed (ext : Ext) (l : Bytes) : Bool := numberAny { ap := true } ext (.li
 def apAnyMoved (ext : Ext) : Schema → JV → Bool
   | .any, v => !(v.allLits (litFixed ext))
   | _, _ => false
+
+/-! ## executable forms for the driver
+
+`Spec.litNearest` expands `10^e` for the written exponent `e`; the driver evaluates the same tests through
+`Model.NumberAp.asF64` (`Number::as_f64`: the nearest binary64, `None` unless finite), whose guards answer a literal like
+`1e999999999` without computing the power — equal on every number literal (`SJ.Proofs.NumberAp.asF64_bytes`,
+`litNearest_bytes`), hence everywhere: `SJ.Proofs.Typed.apNonFiniteX_eq`, `apAccurateX_eq`, `c16ApExcluded_eq`. -/
+
+/-- `Spec.litNearest`, through `Number::as_f64` on a number literal (what a `Value` holds) -/
+def litNearestX (l : Bytes) : Option UInt64 :=
+  if Spec.Number.isNumber l then Model.NumberAp.asF64 l else litNearest l
+
+def apNonFiniteX : Schema → JV → Bool
+  | .f64, .num (.lit l) => (litNearestX l).isNone
+  | _, _ => false
+
+def apAccurateX (fr : Bool) : Schema → JV → Bool
+  | .f64, .num (.lit l) => accOpt (litNearestX l) (litConv fr l)
+  | _, _ => true
+
+/-- the (schema, value) pair lies in one of the three open `arbitrary_precision` findings of C16 -/
+def c16ApExcluded (ext : Ext) (s : Schema) (v : JV) : Bool :=
+  !(s.allPos (fun s v => !apNegZero s v) v) || !(s.allPos (fun s v => !apNonFiniteX s v) v) ||
+    !(s.allPos (fun s v => !apAnyMoved ext s v) v)
 
 end SJ.Model.FromValue
